@@ -19,6 +19,7 @@ Definition progress (st : state) (l : label) (st' : state) : Prop :=
   | WNext | WWaitEnter | WWaitRetry => n1 st' = S (n1 st)
   | RNext => n2 st' = S (n2 st)
   | RDeliver _ | RUnlock | RSignal _ => True
+  | WNextBusy => False
   end.
 
 Section Progress.
